@@ -187,6 +187,31 @@ def run(ctx):
                 stack.append((e[3], val2))
     ctx.sample({"mode": "convert", "class": pc, "cartesian": [np.asarray(v).tolist() for v in orig]})
     ctx.notes["conversion_edges"] = nedges
+    # the number type of the input is not part of the point: pixel indices (integer arrays) with a height that
+    # is not a whole number convert like the same values written as floats, along every ordered pair of systems
+    for zval in (2.5, -0.75, np.array([2.5, -0.75, 0.3, 7.25])):
+        xi = np.array([3, -2, 5, 1]); yi = np.array([1, 4, -6, 2])
+        for dt in (np.int64, np.int32):   # (NumPy promotes narrower integers to single precision)
+            pin = [xi.astype(dt), yi.astype(dt), zval]
+            pfl = [xi.astype(float), yi.astype(float), zval]
+            for a_ in ("cartesian",):
+                for b_ in ("spherical", "cylindrical"):
+                    ctx.case(("dtype", str(np.dtype(dt)), np.ndim(zval), b_), nontrivial=True)
+                    try:
+                        got = find_transformation_function(a_, b_)(pin)
+                        want = find_transformation_function(a_, b_)(pfl)
+                        back = find_transformation_function(b_, a_)(got)
+                        ok = all(rel_close(g_, w_, 10.0) for g_, w_ in zip(got, want)) and \
+                            all(rel_close(g_, w_, 10.0) for g_, w_ in zip(back, oracle("cartesian", xi.astype(float), yi.astype(float), zval)))
+                    except Exception as ex:
+                        ctx.violation("convert/dtype/exception", {"dtype": str(np.dtype(dt)), "to": b_, "exc": repr(ex)})
+                        continue
+                    if not ok:
+                        ctx.violation("convert/dtype/%s" % b_, {"dtype": str(np.dtype(dt)), "z": np.asarray(zval).tolist(),
+                                                                 "got": [np.asarray(v, float).tolist() for v in got],
+                                                                 "as_floats": [np.asarray(v, float).tolist() for v in want]})
+                    else:
+                        ctx.trace_ok()
 
     # ------------------ Euler rotations -----------------------------------------------------
     g = load(ctx, "euler", {"MaxSteps": 2 if quick else 3})
@@ -235,100 +260,126 @@ def run(ctx):
 
     # ------------------ composites ---------------------------------------------------------------
     g = load(ctx, "composite", {"MaxSteps": steps})
-    for init in g.init:
-        n = g.states[init]["pt"]
-        centers = [np.array([10.0 * i + rng.uniform(-1, 1), rng.uniform(-3, 3), rng.uniform(5, 9)])
-                   for i in range(n)]
-        for kind in ("Spheres", "Scatterers"):
-            if kind == "Spheres":
-                comp = Spheres([Sphere(n=1.5, r=0.5, center=tuple(c)) for c in centers], warn=False)
-            else:
-                comp = Scatterers([Sphere(n=1.5, r=0.5, center=tuple(c)) if i % 2 == 0 else
-                                   Ellipsoid(n=1.5, r=(0.3, 0.4, 0.5), center=tuple(c))
-                                   for i, c in enumerate(centers)])
-            base = np.array(centers)
-            stack = [(init, comp)]
-            while stack:
-                sid, obj = stack.pop()
-                net = np.array(g.states[sid]["sys"], dtype=float)
-                # rotation at every reached state: rigid, centroid fixed, equals the oracle
-                ang = [rng.uniform(-4, 4) for _ in range(3)]
-                try:
-                    rot = obj.rotated(*ang) if rng.random() < 0.5 else obj.rotated(tuple(ang))
-                    cs = np.array([s.center for s in obj.scatterers], dtype=float)
-                    cr = np.array([s.center for s in rot.scatterers], dtype=float)
-                    com = cs.mean(0)
-                    want = com + (cs - com) @ (Rz(ang[2]) @ Ry(ang[1]) @ Rz(ang[0])).T
-                    dd = np.linalg.norm(cs[:, None] - cs[None], axis=-1)
-                    dr = np.linalg.norm(cr[:, None] - cr[None], axis=-1)
-                    ctx.case(("rotate", kind, n, tuple(net)), nontrivial=n > 1)
-                    if (np.max(np.abs(dd - dr)) > 1e-11 or np.max(np.abs(cr.mean(0) - com)) > 1e-11
-                            or np.max(np.abs(cr - want)) > 1e-11 or len(rot.scatterers) != n):
-                        ctx.violation("composite/rotated/%s" % kind, {"n": n, "angles": ang})
-                    else:
-                        ctx.trace_ok()
-                        # the result of a turn (or of a turn and a shift) turned again: still rigid, about its centroid
-                        ang2 = [rng.uniform(-4, 4) for _ in range(3)]
-                        shift = np.array([rng.uniform(-2, 2) for _ in range(3)])
-                        for label, mid, cmid in (("turn_turn", rot, cr), ("turn_shift_turn", rot.translated(shift), cr + shift)):
-                            rot2 = mid.rotated(*ang2)
-                            c2 = np.array([s_.center for s_ in rot2.scatterers], dtype=float)
-                            com2 = cmid.mean(0)
-                            want2 = com2 + (cmid - com2) @ (Rz(ang2[2]) @ Ry(ang2[1]) @ Rz(ang2[0])).T
-                            ctx.case(("rotate_again", label, kind, n, tuple(net)), nontrivial=n > 1)
-                            if np.max(np.abs(c2 - want2)) > 1e-11:
-                                ctx.violation("composite/rotated_again/%s" % label, {"n": n, "kind": kind, "defect": float(np.max(np.abs(c2 - want2)))})
-                            else:
-                                ctx.trace_ok()
-                except AttributeError as ex:
-                    if kind == "Scatterers" and n > 1 and "rotated" in str(ex):
-                        ctx.violation("composite/rotated/non_sphere_member",
-                                      {"exc": repr(ex), "n": n})
-                    else:
-                        ctx.violation("composite/rotated/exception", {"exc": repr(ex), "kind": kind})
-                except Exception as ex:
-                    ctx.violation("composite/rotated/exception", {"exc": repr(ex), "kind": kind})
-                for e in g.out.get(sid, []):
-                    if e[1] != "Translate":
-                        continue
-                    v = [float(a) for a in e[2][0]]
-                    ctx.case(("translate", kind, n, tuple(net), tuple(v)))
-                    try:
-                        o1 = obj.translated(v[0], v[1], v[2])
-                        o2 = obj.translated(np.array(v))
-                    except Exception as ex:
-                        ctx.violation("composite/translated/exception", {"exc": repr(ex), "v": v})
-                        continue
-                    want = base + net + np.array(v)
-                    ok = True
-                    for o in (o1, o2):
-                        c = np.array([s.center for s in o.scatterers], dtype=float)
-                        if c.shape != want.shape or np.max(np.abs(c - want)) > 1e-11:
-                            ok = False
-                    # the original is not modified
-                    c0 = np.array([s.center for s in obj.scatterers], dtype=float)
-                    if np.max(np.abs(c0 - (base + net))) > 1e-11:
-                        ok = False
-                    if not ok:
-                        ctx.violation("composite/translated/%s" % kind,
-                                      {"n": n, "net_before": net.tolist(), "v": v})
-                    else:
-                        ctx.trace_ok()
-                    stack.append((e[3], o1))
-        # rigid cluster = rotate then translate
-        if n >= 2:
-            sp = Spheres([Sphere(n=1.5, r=0.5, center=tuple(c)) for c in centers], warn=False)
-            ang = tuple(rng.uniform(-3, 3) for _ in range(3))
-            tr = tuple(rng.uniform(-5, 5) for _ in range(3))
-            rc = RigidCluster(sp, rotation=ang, translation=tr)
-            got = np.array([s.center for s in rc.scatterers], dtype=float)
-            com = base.mean(0)
-            want = com + (base - com) @ (Rz(ang[2]) @ Ry(ang[1]) @ Rz(ang[0])).T + np.array(tr)
-            ctx.case(("rigid", n))
-            if np.max(np.abs(got - want)) > 1e-11:
-                ctx.violation("composite/rigidcluster", {"n": n, "rotation": ang, "translation": tr})
-            else:
-                ctx.trace_ok()
+    # every length in microns, and again in metres (coordinates of 1e-5: nothing may depend on an absolute scale)
+    for U_ in (1.0, 1e-6):
+      TOL = 1e-11 * U_
+      for init in g.init:
+          n = g.states[init]["pt"]
+          centers = [U_ * np.array([10.0 * i + rng.uniform(-1, 1), rng.uniform(-3, 3), rng.uniform(5, 9)])
+                     for i in range(n)]
+          for kind in ("Spheres", "Scatterers"):
+              if kind == "Spheres":
+                  comp = Spheres([Sphere(n=1.5, r=0.5 * U_, center=tuple(c)) for c in centers], warn=False)
+              else:
+                  comp = Scatterers([Sphere(n=1.5, r=0.5 * U_, center=tuple(c)) if i % 2 == 0 else
+                                     Ellipsoid(n=1.5, r=(0.3 * U_, 0.4 * U_, 0.5 * U_), center=tuple(c))
+                                     for i, c in enumerate(centers)])
+              base = np.array(centers)
+              stack = [(init, comp)]
+              while stack:
+                  sid, obj = stack.pop()
+                  net = U_ * np.array(g.states[sid]["sys"], dtype=float)
+                  # rotation at every reached state: rigid, centroid fixed, equals the oracle
+                  ang = [rng.uniform(-4, 4) for _ in range(3)]
+                  try:
+                      rot = obj.rotated(*ang) if rng.random() < 0.5 else obj.rotated(tuple(ang))
+                      cs = np.array([s.center for s in obj.scatterers], dtype=float)
+                      cr = np.array([s.center for s in rot.scatterers], dtype=float)
+                      com = cs.mean(0)
+                      want = com + (cs - com) @ (Rz(ang[2]) @ Ry(ang[1]) @ Rz(ang[0])).T
+                      dd = np.linalg.norm(cs[:, None] - cs[None], axis=-1)
+                      dr = np.linalg.norm(cr[:, None] - cr[None], axis=-1)
+                      ctx.case(("rotate", kind, n, U_, tuple(net)), nontrivial=n > 1)
+                      if (np.max(np.abs(dd - dr)) > TOL or np.max(np.abs(cr.mean(0) - com)) > TOL
+                              or np.max(np.abs(cr - want)) > TOL or len(rot.scatterers) != n):
+                          ctx.violation("composite/rotated/%s" % kind, {"n": n, "angles": ang})
+                      else:
+                          ctx.trace_ok()
+                          # the result of a turn (or of a turn and a shift) turned again: still rigid, about its centroid
+                          ang2 = [rng.uniform(-4, 4) for _ in range(3)]
+                          shift = U_ * np.array([rng.uniform(-2, 2) for _ in range(3)])
+                          for label, mid, cmid in (("turn_turn", rot, cr), ("turn_shift_turn", rot.translated(shift), cr + shift)):
+                              rot2 = mid.rotated(*ang2)
+                              c2 = np.array([s_.center for s_ in rot2.scatterers], dtype=float)
+                              com2 = cmid.mean(0)
+                              want2 = com2 + (cmid - com2) @ (Rz(ang2[2]) @ Ry(ang2[1]) @ Rz(ang2[0])).T
+                              ctx.case(("rotate_again", label, kind, n, U_, tuple(net)), nontrivial=n > 1)
+                              if np.max(np.abs(c2 - want2)) > TOL:
+                                  ctx.violation("composite/rotated_again/%s" % label, {"n": n, "kind": kind, "defect": float(np.max(np.abs(c2 - want2)))})
+                              else:
+                                  ctx.trace_ok()
+                  except AttributeError as ex:
+                      if kind == "Scatterers" and n > 1 and "rotated" in str(ex):
+                          ctx.violation("composite/rotated/non_sphere_member",
+                                        {"exc": repr(ex), "n": n})
+                      else:
+                          ctx.violation("composite/rotated/exception", {"exc": repr(ex), "kind": kind})
+                  except Exception as ex:
+                      ctx.violation("composite/rotated/exception", {"exc": repr(ex), "kind": kind})
+                  for e in g.out.get(sid, []):
+                      if e[1] != "Translate":
+                          continue
+                      v = [U_ * float(a) for a in e[2][0]]
+                      ctx.case(("translate", kind, n, U_, tuple(net), tuple(v)))
+                      try:
+                          o1 = obj.translated(v[0], v[1], v[2])
+                          o2 = obj.translated(np.array(v))
+                      except Exception as ex:
+                          ctx.violation("composite/translated/exception", {"exc": repr(ex), "v": v})
+                          continue
+                      want = base + net + np.array(v)
+                      ok = True
+                      for o in (o1, o2):
+                          c = np.array([s.center for s in o.scatterers], dtype=float)
+                          if c.shape != want.shape or np.max(np.abs(c - want)) > TOL:
+                              ok = False
+                      # the original is not modified
+                      c0 = np.array([s.center for s in obj.scatterers], dtype=float)
+                      if np.max(np.abs(c0 - (base + net))) > TOL:
+                          ok = False
+                      if not ok:
+                          ctx.violation("composite/translated/%s" % kind,
+                                        {"n": n, "net_before": net.tolist(), "v": v})
+                      else:
+                          ctx.trace_ok()
+                      stack.append((e[3], o1))
+          # rigid cluster = rotate then translate
+          if n >= 2:
+              sp = Spheres([Sphere(n=1.5, r=0.5 * U_, center=tuple(c)) for c in centers], warn=False)
+              ang = tuple(rng.uniform(-3, 3) for _ in range(3))
+              tr = tuple(U_ * rng.uniform(-5, 5) for _ in range(3))
+              rc = RigidCluster(sp, rotation=ang, translation=tr)
+              got = np.array([s.center for s in rc.scatterers], dtype=float)
+              com = base.mean(0)
+              want = com + (base - com) @ (Rz(ang[2]) @ Ry(ang[1]) @ Rz(ang[0])).T + np.array(tr)
+              ctx.case(("rigid", n, U_))
+              if np.max(np.abs(got - want)) > TOL:
+                  ctx.violation("composite/rigidcluster", {"n": n, "rotation": ang, "translation": tr})
+              else:
+                  ctx.trace_ok()
+          # a union / difference / intersection of two spheres turns about its first member's centre
+          if n == 2:
+              from holopy.scattering.scatterer import Union, Difference, Intersection
+              for cls in (Union, Difference, Intersection):
+                  s1_ = Sphere(n=1.5, r=0.5 * U_, center=tuple(centers[0]))
+                  s2_ = Sphere(n=1.5, r=0.4 * U_, center=tuple(centers[0] + U_ * np.array([0.3, -0.2, 0.25])))
+                  cur, c1, c2 = cls(s1_, s2_), np.array(s1_.center, float), np.array(s2_.center, float)
+                  for turn in range(2):
+                      ang = [rng.uniform(-4, 4) for _ in range(3)]
+                      ctx.case(("csg_rotate", cls.__name__, U_, turn), nontrivial=True)
+                      try:
+                          cur = cur.rotated(*ang)
+                      except Exception as ex:
+                          ctx.violation("composite/csg_rotated/exception", {"exc": repr(ex), "class": cls.__name__})
+                          break
+                      c2 = c1 + (Rz(ang[2]) @ Ry(ang[1]) @ Rz(ang[0])) @ (c2 - c1)
+                      g1, g2 = np.array(cur.s1.center, float), np.array(cur.s2.center, float)
+                      if np.max(np.abs(g1 - c1)) > TOL or np.max(np.abs(g2 - c2)) > TOL:
+                          ctx.violation("composite/csg_rotated/%s" % cls.__name__,
+                                        {"turn": turn, "unit": U_, "member_distance": float(np.linalg.norm(g2 - g1)),
+                                         "expected_distance": float(np.linalg.norm(c2 - c1))})
+                          break
+                      ctx.trace_ok()
     ctx.sample({"mode": "composite", "members": n, "net_translation": net.tolist()})
     ctx.exhaustive = not quick
 
